@@ -95,13 +95,8 @@ type Term struct {
 	A    []*Term
 	C    uint64
 	Name string   // OVar
-	FD   []fdCase // finite-domain value: mutually exclusive guards, concrete leaves
+	FD   *fdTab   // finite-domain value: decision table over selector terms (see below)
 	id   int32    // printing scratch
-}
-
-type fdCase struct {
-	G *Term
-	V *Term // concrete
 }
 
 func (t *Term) conc() bool { return t.Op == OConst }
@@ -200,6 +195,11 @@ func notT(t *Term) *Term {
 	if t.conc() {
 		return cBool(!t.b())
 	}
+	if t.FD != nil {
+		if r, ok := fdApply1(t, func(a *Term) *Term { return cBool(!a.b()) }); ok {
+			return r
+		}
+	}
 	if t.Op == ONot {
 		return t.A[0]
 	}
@@ -221,6 +221,11 @@ func andT(a, b *Term) *Term {
 	if a == b {
 		return a
 	}
+	if a.FD != nil && b.FD != nil {
+		if r, ok := fdApply2(a, b, func(x, y *Term) *Term { return cBool(x.b() && y.b()) }); ok {
+			return r
+		}
+	}
 	return &Term{Op: OAnd, S: SBool, A: []*Term{a, b}}
 }
 func orT(a, b *Term) *Term {
@@ -238,6 +243,11 @@ func orT(a, b *Term) *Term {
 	}
 	if a == b {
 		return a
+	}
+	if a.FD != nil && b.FD != nil {
+		if r, ok := fdApply2(a, b, func(x, y *Term) *Term { return cBool(x.b() || y.b()) }); ok {
+			return r
+		}
 	}
 	return &Term{Op: OOr, S: SBool, A: []*Term{a, b}}
 }
@@ -257,20 +267,31 @@ func iteT(c, a, b *Term) *Term {
 	if a == b || sameConst(a, b) {
 		return a
 	}
+	if isFD(a) && isFD(b) {
+		if isFD(c) {
+			if r, ok := fdApplyN(func(x []*Term) *Term {
+				if x[0].b() {
+					return x[1]
+				}
+				return x[2]
+			}, c, a, b); ok {
+				return r
+			}
+		} else if c.S == SBool {
+			// a fresh Boolean selector
+			sel := &Term{Op: c.Op, S: SBool, A: c.A, C: c.C, Name: c.Name, FD: &fdTab{sels: []*Term{c}, doms: []int{2}, vals: []uint64{0, 1}}}
+			if r, ok := fdApplyN(func(x []*Term) *Term {
+				if x[0].b() {
+					return x[1]
+				}
+				return x[2]
+			}, sel, a, b); ok {
+				return r
+			}
+		}
+	}
 	if a.S == SBool {
 		return orT(andT(c, a), andT(notT(c), b))
-	}
-	if (a.conc() || a.FD != nil) && (b.conc() || b.FD != nil) {
-		var out []fdCase
-		for _, ca := range a.cases() {
-			out = append(out, fdCase{andT(c, ca.G), ca.V})
-		}
-		for _, cb := range b.cases() {
-			out = append(out, fdCase{andT(notT(c), cb.G), cb.V})
-		}
-		if len(out) <= 64 {
-			return mkFD(out)
-		}
 	}
 	return &Term{Op: OIte, S: a.S, W: a.W, A: []*Term{c, a, b}}
 }
@@ -307,84 +328,280 @@ func eqT(x, y *Term) *Term {
 }
 
 // ---------------- finite-domain values ----------------
+//
+// A finite-domain term is a decision table over selector terms: each selector is either a
+// "pick" variable (bit-vector constrained to 0..n-1) or an arbitrary Bool term (domain 2).
+// Operators are applied pointwise on the union of the supports, inside the engine, so what the
+// solver sees of a computation on finite-domain values is a nested ite over the selectors
+// with constant leaves (purely propositional).
 
-func mkFD(cases []fdCase) *Term {
-	var out []fdCase
-	for _, c := range cases {
-		if c.G.conc() && !c.G.b() {
-			continue
-		}
-		merged := false
-		for i := range out {
-			if out[i].V.C == c.V.C {
-				out[i].G = orT(out[i].G, c.G)
-				merged = true
-				break
-			}
-		}
-		if !merged {
-			out = append(out, c)
-		}
-	}
-	if len(out) == 0 {
-		panic(pathEnd{"empty finite domain"})
-	}
-	if len(out) == 1 {
-		return out[0].V
-	}
-	v0 := out[0].V
-	if v0.S == SBool {
-		r := tFalse
-		for _, c := range out {
-			if c.V.b() {
-				r = orT(r, c.G)
-			}
-		}
-		return r
-	}
-	e := out[len(out)-1].V
-	for i := len(out) - 2; i >= 0; i-- {
-		e = &Term{Op: OIte, S: v0.S, W: v0.W, A: []*Term{out[i].G, out[i].V, e}}
-	}
-	return &Term{Op: OIte, S: v0.S, W: v0.W, A: e.A, FD: out}
+type fdTab struct {
+	sels []*Term
+	doms []int
+	vals []uint64 // row-major, selector 0 most significant
 }
 
-func (t *Term) cases() []fdCase {
-	if t.conc() {
-		return []fdCase{{tTrue, t}}
+const fdMaxTable = 4096
+
+func (t *Term) fd() *fdTab {
+	if t.Op == OConst {
+		return &fdTab{vals: []uint64{t.C}}
 	}
 	return t.FD
 }
 
-func fdApply2(x, y *Term, f func(a, b *Term) *Term) (*Term, bool) {
-	if (x.conc() && y.conc()) || (!x.conc() && x.FD == nil) || (!y.conc() && y.FD == nil) {
-		return nil, false
-	}
-	if len(x.cases())*len(y.cases()) > 144 {
-		return nil, false
-	}
-	var out []fdCase
-	for _, cx := range x.cases() {
-		for _, cy := range y.cases() {
-			g := andT(cx.G, cy.G)
-			if g.conc() && !g.b() {
-				continue
+func isFD(t *Term) bool { return t.Op == OConst || t.FD != nil }
+
+// fdUnion computes the union support of tables and, for every row of the union, the row index in each input.
+func fdUnion(tabs ...*fdTab) (sels []*Term, doms []int, rows [][]int, ok bool) {
+	pos := map[*Term]int{}
+	for _, tb := range tabs {
+		for i, sl := range tb.sels {
+			if _, seen := pos[sl]; !seen {
+				pos[sl] = len(sels)
+				sels = append(sels, sl)
+				doms = append(doms, tb.doms[i])
 			}
-			out = append(out, fdCase{g, f(cx.V, cy.V)})
 		}
 	}
-	return mkFD(out), true
+	size := 1
+	for _, d := range doms {
+		size *= d
+		if size > fdMaxTable {
+			return nil, nil, nil, false
+		}
+	}
+	rows = make([][]int, len(tabs))
+	for k := range rows {
+		rows[k] = make([]int, size)
+	}
+	idx := make([]int, len(sels))
+	for r := 0; r < size; r++ {
+		// decode r into idx (selector 0 most significant)
+		x := r
+		for i := len(sels) - 1; i >= 0; i-- {
+			idx[i] = x % doms[i]
+			x /= doms[i]
+		}
+		for k, tb := range tabs {
+			row := 0
+			for i, sl := range tb.sels {
+				row = row*tb.doms[i] + idx[pos[sl]]
+			}
+			rows[k][r] = row
+		}
+	}
+	return sels, doms, rows, true
+}
+
+// fdBuild makes the term for a table (nested ite over the selectors, constants at the leaves).
+func fdBuild(s Sort, w int, sels []*Term, doms []int, vals []uint64) *Term {
+	allSame := true
+	for _, v := range vals[1:] {
+		if v != vals[0] {
+			allSame = false
+			break
+		}
+	}
+	if allSame {
+		return cBits(s, w, vals[0])
+	}
+	// drop selectors the value does not depend on
+	for i := 0; i < len(sels); i++ {
+		stride := 1
+		for _, d := range doms[i+1:] {
+			stride *= d
+		}
+		block := stride * doms[i]
+		dep := false
+	outer:
+		for base := 0; base < len(vals); base += block {
+			for off := 0; off < stride; off++ {
+				v0 := vals[base+off]
+				for k := 1; k < doms[i]; k++ {
+					if vals[base+k*stride+off] != v0 {
+						dep = true
+						break outer
+					}
+				}
+			}
+		}
+		if !dep {
+			nv := make([]uint64, 0, len(vals)/doms[i])
+			for base := 0; base < len(vals); base += block {
+				nv = append(nv, vals[base:base+stride]...)
+			}
+			ns := append(append([]*Term{}, sels[:i]...), sels[i+1:]...)
+			nd := append(append([]int{}, doms[:i]...), doms[i+1:]...)
+			return fdBuild(s, w, ns, nd, nv)
+		}
+	}
+	tab := &fdTab{sels: sels, doms: doms, vals: vals}
+	e := fdExpand(s, w, sels, doms, vals)
+	return &Term{Op: e.Op, S: s, W: w, A: e.A, C: e.C, Name: e.Name, FD: tab}
+}
+
+func fdExpand(s Sort, w int, sels []*Term, doms []int, vals []uint64) *Term {
+	if len(sels) == 0 {
+		return cBits(s, w, vals[0])
+	}
+	allSame := true
+	for _, v := range vals[1:] {
+		if v != vals[0] {
+			allSame = false
+			break
+		}
+	}
+	if allSame {
+		return cBits(s, w, vals[0])
+	}
+	stride := len(vals) / doms[0]
+	sel := sels[0]
+	sub := make([]*Term, doms[0])
+	for k := 0; k < doms[0]; k++ {
+		sub[k] = fdExpand(s, w, sels[1:], doms[1:], vals[k*stride:(k+1)*stride])
+	}
+	plainIte := func(c, a, b *Term) *Term {
+		if a == b || sameConst(a, b) {
+			return a
+		}
+		if s == SBool {
+			return plainOr(plainAnd(c, a), plainAnd(plainNot(c), b))
+		}
+		return &Term{Op: OIte, S: s, W: w, A: []*Term{c, a, b}}
+	}
+	if sel.S == SBool {
+		return plainIte(sel, sub[1], sub[0])
+	}
+	acc := sub[doms[0]-1]
+	for k := doms[0] - 2; k >= 0; k-- {
+		acc = plainIte(&Term{Op: OEq, S: SBool, A: []*Term{sel, cBV(uint64(k), sel.W)}}, sub[k], acc)
+	}
+	return acc
+}
+
+// structural connectives without finite-domain dispatch (used while expanding tables)
+func plainNot(t *Term) *Term {
+	if t.conc() {
+		return cBool(!t.b())
+	}
+	if t.Op == ONot && t.FD == nil {
+		return t.A[0]
+	}
+	return &Term{Op: ONot, S: SBool, A: []*Term{t}}
+}
+func plainAnd(a, b *Term) *Term {
+	if a.conc() {
+		if a.b() {
+			return b
+		}
+		return a
+	}
+	if b.conc() {
+		if b.b() {
+			return a
+		}
+		return b
+	}
+	if a == b {
+		return a
+	}
+	return &Term{Op: OAnd, S: SBool, A: []*Term{a, b}}
+}
+func plainOr(a, b *Term) *Term {
+	if a.conc() {
+		if a.b() {
+			return a
+		}
+		return b
+	}
+	if b.conc() {
+		if b.b() {
+			return b
+		}
+		return a
+	}
+	if a == b {
+		return a
+	}
+	return &Term{Op: OOr, S: SBool, A: []*Term{a, b}}
+}
+
+// fdPick: the value vals[p] for a pick variable p constrained to 0..len(vals)-1.
+func fdPick(p *Term, vals []*Term) *Term {
+	v := make([]uint64, len(vals))
+	for i, t := range vals {
+		v[i] = t.C
+	}
+	return fdBuild(vals[0].S, vals[0].W, []*Term{p}, []int{len(vals)}, v)
+}
+
+// fdApplyN applies f pointwise when every operand is concrete or finite-domain (and at least one is not concrete).
+func fdApplyN(f func(args []*Term) *Term, xs ...*Term) (*Term, bool) {
+	any := false
+	for _, x := range xs {
+		if !isFD(x) {
+			return nil, false
+		}
+		if !x.conc() {
+			any = true
+		}
+	}
+	if !any {
+		return nil, false
+	}
+	tabs := make([]*fdTab, len(xs))
+	for i, x := range xs {
+		tabs[i] = x.fd()
+	}
+	sels, doms, rows, ok := fdUnion(tabs...)
+	if !ok {
+		return nil, false
+	}
+	n := len(rows[0])
+	vals := make([]uint64, n)
+	args := make([]*Term, len(xs))
+	var rs Sort
+	var rw int
+	for r := 0; r < n; r++ {
+		for k, x := range xs {
+			args[k] = cBits(x.S, x.W, tabs[k].vals[rows[k][r]])
+		}
+		res := f(args)
+		if !res.conc() {
+			return nil, false
+		}
+		vals[r] = res.C
+		rs, rw = res.S, res.W
+	}
+	return fdBuild(rs, rw, sels, doms, vals), true
+}
+
+func fdApply2(x, y *Term, f func(a, b *Term) *Term) (*Term, bool) {
+	if x.conc() && y.conc() {
+		return nil, false
+	}
+	return fdApplyN(func(a []*Term) *Term { return f(a[0], a[1]) }, x, y)
 }
 
 func fdApply1(x *Term, f func(a *Term) *Term) (*Term, bool) {
-	if x.conc() || x.FD == nil {
+	if x.conc() {
 		return nil, false
 	}
-	var out []fdCase
-	for _, cx := range x.cases() {
-		out = append(out, fdCase{cx.G, f(cx.V)})
+	return fdApplyN(func(a []*Term) *Term { return f(a[0]) }, x)
+}
+
+// fdValues lists the distinct values of a finite-domain term.
+func fdValues(t *Term) []uint64 {
+	seen := map[uint64]bool{}
+	var out []uint64
+	for _, v := range t.FD.vals {
+		if !seen[v] {
+			seen[v] = true
+			out = append(out, v)
+		}
 	}
-	return mkFD(out), true
+	return out
 }
 
 // ---------------- evaluation ----------------
